@@ -8,7 +8,7 @@ EXPLANATION = (
     "operator, operands (modulo the replacement map), output type and output mode — proved for every pair of paths; "
     "(1b) ConstantPropagationOptimizer._maybe_mark_dead marks a constant dead only if no live operation of any kind reads it "
     "(reader kinds per the IR node table; operation lists of length 1-2, i.e. bounded list length), and every call site "
-    "passes the whole operation list (AST call-site obligation); "
+    "passes the whole operation list (AST call-site obligation); (1c) _update_value of both passes re-points a reference to its canonical node on the same signal type; "
     "(2) IR-level folding functions against S1 for all int32 operands. B tier (bounded): programs with repeated "
     "sub-expressions, folded constants and fan-out are compiled with and without optimisation and each build is "
     "compared with the S3 source semantics for all inputs by SMT (both equal to S3 => observationally equivalent)."
@@ -29,4 +29,13 @@ def run(tier):
             f"{len(progs)} programs (CSE candidates differing in type/mode, folded constants in every consumer kind, "
             f"fan-out 2..8); optimize={optimize}; inputs: all int32 (SMT)",
             cr.known, opts={"optimize": optimize})
+    from bounded import pipeline
+    from bounded.contract_enum import run_contract_enum
+    from contracts import c10
+    pipeline.ensure_repo()
+    margs = c10.map_operands_arg_sets()
+    cr.bounded_check(run_contract_enum, "map-operands-box", c10.map_operands, margs,
+                     f"{len(margs)} nodes: one of every IR node kind (deciders with and without condition rows, latch writes with and without inline conditions): every "
+                     "operand place holds fn(old operand), nothing else changed (contract evaluated on the real optimizer._map_operands; the function is a case distinction "
+                     "over node kinds and parametric in the operands)")
     return cr.finish()
